@@ -110,6 +110,12 @@ impl TryFrom<&str> for OnionV3Address {
 	type Error = OnionV3Error;
 
 	fn try_from(input: &str) -> Result<Self, Self::Error> {
+		// An address is always ASCII (and `from_hex` must only be given ASCII)
+		if !input.is_ascii() {
+			return Err(OnionV3Error::AddressDecoding(
+				"Input address is not ASCII".to_owned(),
+			));
+		}
 		// First attempt to decode a pubkey from hex
 		if let Ok(b) = from_hex(input) {
 			if b.len() == 32 {
